@@ -79,7 +79,7 @@ func newIdentities(m int) identities {
 
 // oldCluster = the key material of the ORIGINAL cluster 1..N0: per validator the group key and every operator's share.
 type oldCluster struct {
-	group  []tbls.PublicKey           // per validator
+	group  []tbls.PublicKey          // per validator
 	shares []map[int]tbls.PrivateKey // per validator: share index -> secret share
 }
 
